@@ -111,7 +111,7 @@ example : (Fan.run 2 [.done 1 (.num 1), .done 0 (.num 0), .fail 1 (S "late")]).e
 `run q init is` runs the model on ANY sequence `is` of launches, branch events, deferred handlers, task replies / wait
 expiries, cancellation callbacks, top-level endings and back-stop ticks (attempt ids, branch indices, continuations and
 Retry / Catch decisions arbitrary); `Quirks.none` is the repaired protocol, `Quirks.asCode` the code as it is
-(findings C06-F3, C06-F4, C06-F5: each switch has its negation witness below). -/
+(findings C06-F3 … C06-F6: each switch has its negation witness below). -/
 section FanProto
 open Asl.FanProto
 
@@ -152,7 +152,7 @@ theorem late_inputs_inert_after_end (is1 is2 : List Inp) (ok : Bool)
 results entry still waits for a result — when no slot is unresolved any more (every outstanding event has been consumed:
 delivered or dropped) it is gone … -/
 theorem drained_when_quiet (is : List Inp) (he : (run Quirks.none init is).1.ended.isSome = true)
-    (hq : ∀ x ∈ (run Quirks.none init is).1.atts, x.seen = true → x.slots.any Slot.unresolved = false) :
+    (hq : ∀ x ∈ (run Quirks.none init is).1.atts, x.seen = true → x.waits = false) :
     (run Quirks.none init is).1.hasMeta = false := by
   cases hm : (run Quirks.none init is).1.hasMeta with
   | false => rfl
@@ -181,25 +181,64 @@ theorem retry_launches_fresh_attempt (s : Proto) (a b i : Nat) (x : Attempt) (in
     find (step Quirks.none s inp).1.atts b = find s.atts b ∧ ∀ o ∈ (step Quirks.none s inp).2, o.quiet = true :=
   old_attempt_inputs_inert s a b i x inp hrun hx ht hne hb hinp
 
+/-- (vii) siblings make no further progress: in the repaired protocol the step in which an attempt fails — whether the
+failure is then retried, caught or ends the execution — leaves no task or wait outstanding in any attempt that is dead:
+the failed attempt itself and every attempt nested, at any depth, in one of its branches (each is cancelled in that step) -/
+theorem failure_cancels_nested (is : List Inp) (inp : Inp) (a : Nat) (e : Err)
+    (h : Out.failAttempt a e ∈ (step Quirks.none (run Quirks.none init is).1 inp).2) :
+    ∀ x ∈ (step Quirks.none (run Quirks.none init is).1 inp).1.atts, x.seen = true →
+      deadChain (step Quirks.none (run Quirks.none init is).1 inp).1.atts x.id = true →
+      ∀ sl ∈ x.slots, sl.cancellable = false :=
+  step_failure_cancels_nested _ inp a e (run_ts Quirks.none init is (by intro x hx; cases hx)) h
+
+/-- (viii) a cancellation is silent: the Task.Terminated callback of a cancelled task or wait goes through no Retry or
+Catch — neither the cancelled state's own nor that of a fan-out around it: whatever the state, the switches and the
+decisions an input might list for it, it produces nothing but tidy-up outputs (no progress, no retry, no catch transition) … -/
+theorem cancellation_is_silent (q : Quirks) (s : Proto) (a i : Nat) :
+    (∀ o ∈ (step q s (.echo a i)).2, o.quiet = true) ∧
+    ∀ atts b j hs hs', bubble q s.ended.isSome atts b j (.fail .taskTerminated hs) = bubble q s.ended.isSome atts b j (.fail .taskTerminated hs') :=
+  ⟨echo_quiet q s a i, fun atts b j hs hs' => bub_tt_handlers_irrelevant q _ atts b j hs hs'⟩
+
+/-- … and the same holds for the reply of a task whose attempt is terminated, whatever continuation it carries -/
+theorem late_reply_of_terminated_attempt_is_silent (q : Quirks) (s : Proto) (a i : Nat) (k : Kont) (x : Attempt)
+    (hf : find s.atts a = some x) (ht : x.terminated = true) :
+    (∀ o ∈ (step q s (.reply a i k)).2, o.quiet = true) ∧ step q s (.reply a i k) = step q s (.reply a i .goesOn) :=
+  reply_terminated_quiet q s a i k x hf ht
+
 /-! ### the switches of the open findings break exactly these statements (negations, proved on concrete witnesses) -/
 
 /-- the outer attempt 0 (two branches) fails and is retried while attempt 1, nested in its branch 1, has a task out -/
 def nestedRetried : List Inp :=
-  [.launch 0 2 none 0, .event 0 1 .goesOn, .launch 1 1 (some (0, 1)) 0, .event 1 0 .arm,
+  [.launch 0 2 2 none 0, .event 0 1 .goesOn, .launch 1 1 1 (some (0, 1)) 0, .event 1 0 .arm,
    .event 0 0 (.fail (.plain 1) [.retried])]
 /-- … then the nested attempt's task fails too -/
 def nestedFailsLater : List Inp := [.reply 1 0 (.fail (.plain 2) [.uncaught, .retried])]
 
-/-- C06-F3 (`refail`): the terminated attempt 0 is failed again, with the other error, and retried a second time -/
+/-- the code as it was when C06-F3 was found: the nested task survives the enclosing failure (C06-F6) and its failure … -/
+def asFoundF3 : Quirks := { refail := true, nestedSurvive := true }
+
+/-- C06-F3 (`refail`): … fails the terminated attempt 0 again, with the other error, and retries it a second time -/
 theorem refail_breaks_first_failure_wins :
-    Out.failAttempt 0 (.plain 1) ∈ (run { refail := true } init nestedRetried).2 ∧
-    Out.failAttempt 0 (.plain 2) ∈ (run { refail := true } (run { refail := true } init nestedRetried).1 nestedFailsLater).2 ∧
-    Out.retry 0 1 ∈ (run { refail := true } (run { refail := true } init nestedRetried).1 nestedFailsLater).2 := by decide
+    Out.failAttempt 0 (.plain 1) ∈ (run asFoundF3 init nestedRetried).2 ∧
+    Out.failAttempt 0 (.plain 2) ∈ (run asFoundF3 (run asFoundF3 init nestedRetried).1 nestedFailsLater).2 ∧
+    Out.retry 0 1 ∈ (run asFoundF3 (run asFoundF3 init nestedRetried).1 nestedFailsLater).2 := by decide
+
+/-- … then the nested attempt's task answers after all -/
+def nestedRepliesLater : List Inp := [.reply 1 0 (.done 3 [true])]
+
+/-- C06-F6 (`nestedSurvive`): the task of the nested attempt 1 is still outstanding after attempt 0 failed (nothing cancelled
+it), its late reply is accepted and the abandoned join hands over -/
+theorem nested_survive_breaks_cancellation :
+    Out.failAttempt 0 (.plain 1) ∈ (run { nestedSurvive := true } init nestedRetried).2 ∧
+    Out.cancel 1 0 ∉ (run { nestedSurvive := true } init nestedRetried).2 ∧
+    slotOf (run { nestedSurvive := true } init nestedRetried).1.atts 1 0 = some .task ∧
+    (run { nestedSurvive := true } (run { nestedSurvive := true } init nestedRetried).1 nestedRepliesLater).2 =
+      [.progress 1 0, .succeed 1 [3]] := by decide
 
 /-- three levels: attempt 2 in attempt 1 in branch 1 of attempt 0; branch 0 of attempt 0 fails unhandled: the execution ends -/
 def deepThenOuterFails : List Inp :=
-  [.launch 0 2 none 0, .event 0 1 .goesOn, .launch 1 1 (some (0, 1)) 0, .event 1 0 .goesOn,
-   .launch 2 1 (some (1, 0)) 0, .event 2 0 .goesOn, .event 0 0 (.fail (.plain 1) [])]
+  [.launch 0 2 2 none 0, .event 0 1 .goesOn, .launch 1 1 1 (some (0, 1)) 0, .event 1 0 .goesOn,
+   .launch 2 1 1 (some (1, 0)) 0, .event 2 0 .goesOn, .event 0 0 (.fail (.plain 1) [])]
 /-- … then the queued event of the innermost branch is delivered -/
 def deepEventLater : List Inp := [.event 2 0 (.done 7 [true, true, true])]
 
@@ -212,18 +251,21 @@ theorem one_level_lookup_breaks_inertness :
 /-! non-vacuity: the hypotheses of the theorems above are met by these runs, and the repaired protocol does what they say -/
 example : Out.failAttempt 0 (.plain 1) ∈ (run Quirks.none init nestedRetried).2 := by decide
 example : (run Quirks.none init nestedRetried).2 =
-    [.launched 0, .progress 0 1, .launched 1, .progress 1 0, .progress 0 0] ++ Out.failAttempt 0 (.plain 1) :: [.retry 0 1] := by decide
-example : (run Quirks.none (run Quirks.none init nestedRetried).1 nestedFailsLater).2 =
-    [.progress 1 0, .failAttempt 1 (.plain 2)] := by decide
+    [.launched 0, .progress 0 1, .launched 1, .progress 1 0, .progress 0 0] ++ Out.failAttempt 0 (.plain 1) :: [.retry 0 1, .cancel 1 0] := by
+  decide
+/-- the repaired protocol cancels the nested task in the step of the failure; what arrives for it later is an orphan -/
+example : slotOf (run Quirks.none init nestedRetried).1.atts 1 0 = some .cancelling ∧
+    (run Quirks.none (run Quirks.none init nestedRetried).1 nestedFailsLater).2 = [.orphan 1 0] ∧
+    (run Quirks.none (run Quirks.none init nestedRetried).1 ([.echo 1 0] ++ nestedRepliesLater)).2 = [.aborted 1, .orphan 1 0] := by decide
 example : Out.endExecution false ∈ (run Quirks.none init deepThenOuterFails).2 := by decide
 example : (run Quirks.none (run Quirks.none init deepThenOuterFails).1 deepEventLater).2 = [.drop 2 0, .discard] := by decide
 example : (run Quirks.none init deepThenOuterFails).1.ended.isSome = true ∧ (run Quirks.none init deepThenOuterFails).1.hasMeta = true ∧
     (run Quirks.none init (deepThenOuterFails ++ deepEventLater)).1.hasMeta = false := by decide
 example : (step Quirks.none (run Quirks.none init deepThenOuterFails).1 .backstop).2 = [.discard] := by decide
 /-- (vi): attempt 0 retried, attempt 3 launched in its place; a late reply for the old nested attempt 1 … -/
-example : (run Quirks.none init (nestedRetried ++ [.launch 3 2 none 1, .event 3 0 .goesOn])).1.ended = none ∧
-    deadChain (run Quirks.none init (nestedRetried ++ [.launch 3 2 none 1, .event 3 0 .goesOn])).1.atts 3 = false ∧
-    (find (run Quirks.none init (nestedRetried ++ [.launch 3 2 none 1, .event 3 0 .goesOn])).1.atts 0).map (·.terminated) = some true := by
+example : (run Quirks.none init (nestedRetried ++ [.launch 3 2 2 none 1, .event 3 0 .goesOn])).1.ended = none ∧
+    deadChain (run Quirks.none init (nestedRetried ++ [.launch 3 2 2 none 1, .event 3 0 .goesOn])).1.atts 3 = false ∧
+    (find (run Quirks.none init (nestedRetried ++ [.launch 3 2 2 none 1, .event 3 0 .goesOn])).1.atts 0).map (·.terminated) = some true := by
   decide
 example : (step Quirks.none (run Quirks.none init nestedRetried).1 (.event 0 0 (.fail (.plain 5) []))).2 = [.drop 0 0] := by
   decide
@@ -231,6 +273,27 @@ example : (step Quirks.none (run Quirks.none init nestedRetried).1 (.event 0 0 (
 example : (step Quirks.none (run Quirks.none init (deepThenOuterFails.take 6)).1 (.event 2 0 (.fail (.plain 9) []))).2 =
     [.progress 2 0, .failAttempt 2 (.plain 9), .failAttempt 1 (.plain 9), .failAttempt 0 (.plain 9), .endExecution false] := by
   decide
+
+/-- a Map of three items using MaxConcurrency 1: the join waits for the batches not launched yet and hands over once -/
+example : (run Quirks.none init [.launch 0 3 1 none 0, .event 0 0 (.done 5 [true]), .batch 0 1 2 false, .batch 0 1 2 true,
+    .event 0 1 (.done 6 [true]), .batch 0 2 3 false, .batch 0 2 3 true, .event 0 2 (.done 7 [true])]).2.filter (fun o => !o.quiet && o != .progress 0 0
+      && o != .progress 0 1 && o != .progress 0 2) = [.launched 0, .succeed 0 [5, 6, 7], .endExecution true] := by decide
+/-- … and the re-entry event of a nested Map that arrives after the enclosing attempt failed is dropped: its batch is never launched -/
+example : (run Quirks.none init [.launch 0 2 2 none 0, .event 0 1 .goesOn, .launch 1 3 1 (some (0, 1)) 0, .event 1 0 (.done 5 [true]),
+    .event 0 0 (.fail (.plain 1) []), .batch 1 1 2 false]).2 =
+    [.launched 0, .progress 0 1, .launched 1, .progress 1 0, .progress 0 0, .failAttempt 0 (.plain 1), .endExecution false,
+     .drop 1 1, .discard] := by decide
+
+/-- the last result completes the join of the nested attempt 1, whose state then fails (its ResultPath, say) and is not
+handled: the enclosing attempt 0 fails with that error, is retried, and its other branch is cancelled -/
+example : (run Quirks.none init [.launch 0 2 2 none 0, .event 0 0 .arm, .event 0 1 .goesOn, .launch 1 1 1 (some (0, 1)) 0,
+    .event 1 0 (.doneFail 4 (.plain 3) [.uncaught, .retried])]).2 =
+    [.launched 0, .progress 0 0, .progress 0 1, .launched 1, .progress 1 0, .joinFailed 1 (.plain 3), .failAttempt 0 (.plain 3),
+     .retry 0 1, .cancel 0 0] := by decide
+
+/-- attempt 0 is terminated with a task of its branch 1 still registered: its late reply, whatever it would have led to -/
+example : (find (run { nestedSurvive := true } init [.launch 0 2 2 none 0, .event 0 1 .arm, .event 0 0 (.fail (.plain 1) [.caught])]).1.atts 0).map
+    (fun x => (x.terminated, x.slots)) = some (true, [.done 0, .cancelling]) := by decide
 
 end FanProto
 
